@@ -28,6 +28,9 @@ def afm_attr_alphabet():
         ('att', A([], ['"s"'], '"s"', '"s"')),
         ('a', A([], ['Abc', 'x1'], 'Abc', 'x1')),
         ('tox', A([(0, 100)], [], '0', '100')),
+        ('att', A([], ['"a b"', '"c, d"'], '"a b"', '"c, d"')),
+        ('att', A([], ['"a\r\nb"', '"\r"', '"\n"'], '"\r"', '"\n"')),
+        ('att', A([], ['"tab\there"', '"a\rb"'], '"a\rb"', '"tab\there"')),
     ]
 
 
@@ -35,6 +38,9 @@ class AFMFormat(rt.Format):
     name = 'afm'
     ext = 'afm'
     fields = ('attrs',)
+
+    writer_cls = AFMWriter
+    reader_cls = AFMReader
 
     def write(self, fm, path):
         return AFMWriter(path, fm).transform()
